@@ -315,6 +315,15 @@ impl Qcow2Header {
             return Err(format!("qcow2 L1 table with {l1_size} entries is too big").into());
         }
 
+        // the whole virtual disk has to be mapped by one L1 table, which
+        // is limited by the format; otherwise IO beyond the limit can't be
+        // mapped at all
+        let size = header.size;
+        let size_per_l1_entry = (cluster_size / size_of::<u64>() as u64) << header.cluster_bits;
+        if size.div_ceil(size_per_l1_entry) > Self::MAX_L1_SIZE as u64 / size_of::<u64>() as u64 {
+            return Err(format!("qcow2 virtual size {size} is too big").into());
+        }
+
         let rt_clusters = header.refcount_table_clusters as u64;
         if rt_clusters == 0 || rt_clusters * cluster_size > Self::MAX_REFCOUNT_TABLE_SIZE as u64 {
             return Err(format!("qcow2 refcount table of {rt_clusters} clusters is invalid").into());
